@@ -66,6 +66,8 @@ def props_of(ev):
             P.add('C02')
     elif base == 'mutated-operand':
         P.add('C20')
+    if 'result-uncompilable' in fl:
+        P.add('C03')
     return P
 
 
